@@ -6,7 +6,7 @@
 from numbers import Integral
 from typing import Dict
 
-from jaqalpaq.error import JaqalError
+from jaqalpaq.error import JaqalError, nesting_guard
 from jaqalpaq.core.algorithm.visitor import Visitor
 from jaqalpaq.core.circuit import Circuit
 from jaqalpaq.core.block import BlockStatement, LoopStatement
@@ -21,6 +21,7 @@ from jaqalpaq.core.parameter import (
 )
 
 
+@nesting_guard
 def expand_macros(circuit, preserve_definitions=False):
     """Expand macros in the given circuit.
 
